@@ -1,11 +1,12 @@
 """C05 - command dispatcher conforms to the sequential session model (FtpCore)."""
 import random
 
-from harness import corecheck, gen, report
+from harness import corecheck, gen, mc, report
 
 
 def run(tier, seed):
     chk = report.Check("C05", tier, seed)
+    mc.into(chk, mc.run_config("MC_Seq_q" if tier == "quick" else "MC_Seq_t", "MC_Seq", must_cover=("ReplyEv", "WorkerStep", "LsnTry")))
     rng = random.Random(seed * 7919 + 5)
     n = 400 if tier == "quick" else 6000
     cfg = gen.std_cfg(ns=1)
